@@ -353,6 +353,7 @@ def run(tier):
             argument_checks(R, graphql, schema, u, pmeta, calls, aliaser, gen, info, rng)
         pyrun.drop_module(mod)
     flatten_and_null_probe(R)
+    defaults_and_interfaces_probe(R)
     apischema.cache.reset()
     T = "bool * gty * gdefault * string"
     bad, errs = core.run_coq_shards("C19", HEADER, items,
@@ -557,6 +558,114 @@ def flatten_and_null_probe(R):
                             f"arguments gives {expected!r}", info)
     except Exception as e:
         R.violation(f"{type(e).__name__} in the flatten / null argument probe: {e}", info)
+    finally:
+        pyrun.drop_module(mod)
+        apischema.cache.reset()
+
+
+DEFAULTS_SRC = '''
+from dataclasses import dataclass, field
+from typing import List, Optional
+from apischema.graphql import interface
+
+@dataclass
+class Window:
+    page_size: int = 5
+    start_offset: int = 1
+
+@dataclass
+class Search:
+    text: str
+    window: Window = field(default_factory=lambda: Window(5, 1))      # object default of an input field
+
+CALLS = []
+
+def search(search_params: Search, other_window: Window = Window(7, 2)) -> int:      # object default of an argument
+    CALLS.append((search_params, other_window))
+    return other_window.page_size
+
+@interface
+@dataclass
+class Node:
+    id: int
+
+@dataclass
+class Stamped(Node):              # plain intermediate class
+    created_at: str = "now"
+
+@dataclass
+class Article(Stamped):
+    title: str = ""
+
+@interface
+@dataclass
+class Media(Node):                # interface extending an interface
+    url: str = ""
+
+@dataclass
+class Image(Media):
+    width: int = 0
+
+@dataclass
+class Tag(Node):
+    label: str = ""
+
+VALUES = [Tag(1, "l"), Article(2, "2020", "t"), Image(3, "http://i", 640)]
+
+def nodes() -> List[Node]:
+    return VALUES
+
+def medias() -> List[Media]:
+    return [VALUES[2]]
+'''
+
+
+def defaults_and_interfaces_probe(R):
+    """object defaults (of input fields and of resolver arguments) carry the aliased names the argument deserializer expects;
+    every @interface among the ancestors of a class, at any depth, is an interface of its GraphQL type"""
+    import graphql
+    import apischema.cache
+    from apischema import serialize, deserialize
+    from apischema.graphql import graphql_schema
+    apischema.cache.reset()
+    mod = pyrun.exec_module(DEFAULTS_SRC)
+    info = dict(source=DEFAULTS_SRC)
+    try:
+        schema = graphql_schema(query=[mod.search, mod.nodes, mod.medias], types=[mod.Tag, mod.Article, mod.Image], aliaser=camel)
+        errs = graphql.validate_schema(schema)
+        if errs:
+            R.violation(f"schema with object defaults / inherited interfaces does not validate: {errs[0]}", info)
+            return
+        printed = graphql.print_schema(schema)
+        for frag in ("window: WindowInput! = {pageSize: 5, startOffset: 1}", "otherWindow: WindowInput! = {pageSize: 7, startOffset: 2}"):
+            R.count("object_default_probe")
+            if frag not in printed:
+                R.violation(f"the printed schema does not show the default {frag!r} (defaults are the serialized Python defaults "
+                            "under the GraphQL aliaser)", dict(info, printed=printed))
+        for q, want in (('{ search(searchParams: {text: "a"}) }', (mod.Search("a", mod.Window(5, 1)), mod.Window(7, 2))),
+                        ('{ search(searchParams: {text: "a", window: {pageSize: 2}}, otherWindow: {startOffset: 9}) }',
+                         (mod.Search("a", mod.Window(2, 1)), mod.Window(5, 9)))):
+            mod.CALLS.clear()
+            res = graphql.graphql_sync(schema, q)
+            R.count("object_default_probe")
+            if res.errors or mod.CALLS != [want]:
+                R.violation(f"{q}: the resolver received {mod.CALLS!r} (errors {res.errors!r}); deserialize of the arguments, "
+                            f"defaults included, gives {want!r}", dict(info, query=q))
+        want_ifaces = {"Tag": ["Node"], "Article": ["Node"], "Image": ["Media", "Node"], "Media": ["Node"]}
+        for name, ifs in want_ifaces.items():
+            R.count("interface_probe")
+            got = sorted(i.name for i in schema.type_map[name].interfaces)
+            if got != ifs:
+                R.violation(f"GraphQL type {name} implements {got}, its Python class has the interface ancestors {ifs}", info)
+        q = "{ nodes { id ... on Tag { label } ... on Article { createdAt title } ... on Image { url width } } medias { id url ... on Image { width } } }"
+        res = graphql.graphql_sync(schema, q)
+        want = {"nodes": [serialize(type(v), v, aliaser=camel) for v in mod.VALUES],
+                "medias": [serialize(mod.Image, mod.VALUES[2], aliaser=camel)]}
+        R.count("interface_probe")
+        if res.errors or res.data != want:
+            R.violation(f"query over interface-typed fields gives {res.data!r} / {res.errors!r}; serialize gives {want!r}", dict(info, query=q))
+    except Exception as e:
+        R.violation(f"{type(e).__name__} in the object default / interface probe: {e}", info)
     finally:
         pyrun.drop_module(mod)
         apischema.cache.reset()
